@@ -206,11 +206,12 @@ theorem setRoot_tracks (env : Env) (fs : Fs) (fuel : Nat) (root : Path) (d d' : 
     subst hs
     exact collect_tracks env fs fuel _ _ d r h hc
 
-theorem step_tracks (env : Env) (fuel : Nat) (s : St) (op : Op)
+theorem step_tracks (env : Env) (fuel : Nat) (s : St) (op : Op) (hop : op.isDisk = false)
     (h : ∀ db, s.db = some db → Tracks s.fs db) :
     ∀ db, (step env fuel s op).db = some db → Tracks (step env fuel s op).fs db := by
   intro db hdb
   cases op with
+  | disk p t => simp [Op.isDisk] at hop
   | edit p t =>
     simp only [step] at hdb ⊢
     cases hs : s.db with
@@ -234,7 +235,7 @@ theorem step_tracks (env : Env) (fuel : Nat) (s : St) (op : Op)
       simp only [Option.bind_some] at hdb
       exact setRoot_tracks env s.fs fuel p d0 db (h d0 hs) hdb
 
-theorem foldl_tracks (env : Env) (fuel : Nat) (h : List Op) :
+theorem foldl_tracks (env : Env) (fuel : Nat) (h : List Op) (hnd : ∀ op ∈ h, op.isDisk = false) :
     ∀ s : St, (∀ db, s.db = some db → Tracks s.fs db) →
       ∀ db, (h.foldl (step env fuel) s).db = some db → Tracks (h.foldl (step env fuel) s).fs db := by
   induction h with
@@ -242,14 +243,15 @@ theorem foldl_tracks (env : Env) (fuel : Nat) (h : List Op) :
   | cons op rest ih =>
     intro s hs
     simp only [List.foldl_cons]
-    exact ih _ (step_tracks env fuel s op hs)
+    exact ih (fun o ho => hnd o (List.mem_cons_of_mem _ ho)) _
+      (step_tracks env fuel s op (hnd op List.mem_cons_self) hs)
 
 /-- the host's copy of a file's text is always the file system's text (histories only change
 texts through `edit`, which updates both; `set_root_file` copies from the file system) -/
-theorem content_tracks_fs (env : Env) (fuel : Nat) (h : List Op) (db : Db)
+theorem content_tracks_fs (env : Env) (fuel : Nat) (h : List Op) (hnd : ∀ op ∈ h, op.isDisk = false) (db : Db)
     (hdb : (run env fuel h).db = some db) :
     ∀ q t, db.content q = some t → (run env fuel h).fs q = some t := by
-  have := foldl_tracks env fuel h {} (by
+  have := foldl_tracks env fuel h hnd {} (by
     intro d hd q t hq
     simp only [Option.some.injEq] at hd
     subst hd
